@@ -357,9 +357,16 @@ def do_format(case, ob, site):
 def do_format_enum(case, ob, site):
     fmt = 'e4/_E'
     for m in _E:
-        s = H.val_to_formatted_str(m.value, fmt, [_E])
-        ob.fact('enum:val->str(%d)' % m.value, s == m.name, site + ':enum')
-        ob.fact('enum:str->val(%s)' % m.name, H.formatted_str_to_val(m.name, fmt, [_E]) == m.value, site + ':enum')
+        try:
+            s = H.val_to_formatted_str(m.value, fmt, [_E])
+        except Exception as e:
+            s = repr(e)
+        ob.fact('enum:val->str(%d)' % m.value, s == m.name, site + ':enum', detail='got %r' % (s,))
+        try:
+            v = H.formatted_str_to_val(m.name, fmt, [_E])
+        except Exception as e:
+            v = repr(e)
+        ob.fact('enum:str->val(%s)' % m.name, v == m.value, site + ':enum', detail='got %r' % (v,))
 
 
 def do_format_enum_history(case, ob, site):
@@ -509,6 +516,11 @@ def do_bitpattern(case, ob, site):
     o = pyrtl.Output(1, 'm')
     o <<= m
     outs = {}
+    absent = [nm for nm in names if not hasattr(fs, nm)]
+    ob.fact('bitpattern:%s:match_bitpattern-returns-every-named-field' % pat, not absent, site + ':fields',
+            detail='fields %r of the pattern are missing from the returned tuple %r' % (absent, getattr(fs, '_fields', fs)))
+    if absent:
+        return
     for nm in names:
         oo = pyrtl.Output(counts[nm], 'f_' + nm)
         oo <<= getattr(fs, nm)
@@ -564,6 +576,9 @@ def cases(tier, seed):
             if n >= 6 and (sum(ord(c) for c in p) + n) % (4 if tier == 'quick' else 6):
                 continue
             out.append({'k': 'bitpattern', 'pat': p})
+    # any alphanumeric character other than 0/1 names a field: upper case, mixed case (distinct fields), late letters
+    for p in ('R', 'rR', '1RR0dd', 'Aa1aA', 'Z0z', 'aB1Ab0', 'xXx', 'Q1Q'):
+        out.append({'k': 'bitpattern', 'pat': p})
     return out
 
 
